@@ -128,6 +128,28 @@ theorem walkDecls_methods (cls : Str) (skip : Option Nat) : ∀ (ds : List Decl)
     | genConst => simp [walkDecls, methodsOf, walkDecls_methods cls skip r]
     | genType => simp [walkDecls, methodsOf, walkDecls_methods cls skip r]
 
+theorem mem_methodsOf (cls : Str) (f : FuncDecl) (hr : f.recv = none) : ∀ (ds : List Decl),
+    Decl.func f ∈ ds → (⟨f.name, thisName, cls, true⟩ : Method) ∈ methodsOf cls ds
+  | [], h => by simp at h
+  | d :: r, h => by
+    rcases List.mem_cons.mp h with rfl | h'
+    · simp [methodsOf, hr]
+    · have := mem_methodsOf cls f hr r h'
+      cases d with
+      | func g => exact List.mem_cons_of_mem _ this
+      | genVar _ => simpa [methodsOf] using this
+      | genImport => simpa [methodsOf] using this
+      | genConst => simpa [methodsOf] using this
+      | genType => simpa [methodsOf] using this
+
+theorem genType_ok (cls : Str) (ds : List Decl) (t : GenType) (h : genType cls ds = .ok t) :
+    t.methods = (walkDecls cls (classFieldsIdx ds 0) ds 0 [] []).1 ∧
+    t.globals = (walkDecls cls (classFieldsIdx ds 0) ds 0 [] []).2 := by
+  simp only [genType] at h
+  split at h
+  · cases h
+  · cases h; exact ⟨rfl, rfl⟩
+
 /-- **Methods.**  The methods the file declares are exactly its functions, in order; every
 function written without a receiver is a method of the class with the pointer receiver
 `this *T`; functions with an explicit receiver are unchanged.
@@ -137,34 +159,19 @@ theorem C11_class_methods_partial (cls : Str) (ds : List Decl) (t : GenType)
     t.methods = methodsOf cls ds ∧
     ∀ f, Decl.func f ∈ ds → f.recv = none → (⟨f.name, thisName, cls, true⟩ : Method) ∈ t.methods := by
   have hm : t.methods = methodsOf cls ds := by
-    unfold genType at h
-    split at h
-    · cases h
-    · cases h
-      simp [walkDecls_methods]
+    rw [(genType_ok cls ds t h).1, walkDecls_methods]; simp
   refine ⟨hm, ?_⟩
   rw [hm]
   intro f hf hr
-  induction ds with
-  | nil => simp at hf
-  | cons d r ih =>
-    rcases List.mem_cons.mp hf with rfl | hf'
-    · simp [methodsOf, hr]
-    · have := ih hf'
-      cases d with
-      | func g => exact List.mem_cons_of_mem _ this
-      | genVar _ => simpa [methodsOf] using this
-      | genImport => simpa [methodsOf] using this
-      | genConst => simpa [methodsOf] using this
-      | genType => simpa [methodsOf] using this
+  exact mem_methodsOf cls f hr ds hf
 
 def Decl.isLeadingGen : Decl → Bool
   | .genImport | .genConst | .genType => true
   | _ => false
 
 theorem classFieldsIdx_spec : ∀ (ds : List Decl) (i k : Nat), classFieldsIdx ds i = some k →
-    ∃ j, k = i + j ∧ (∃ specs, ds[j]? = some (.genVar specs)) ∧
-      ∀ m, m < j → ∃ d, ds[m]? = some d ∧ d.isLeadingGen = true
+    ∃ j : Nat, k = i + j ∧ (∃ specs, ds[j]? = some (Decl.genVar specs)) ∧
+      ∀ m : Nat, m < j → ∃ d : Decl, ds[m]? = some d ∧ d.isLeadingGen = true
   | [], _, _, h => by simp [classFieldsIdx] at h
   | d :: r, i, k, h => by
     cases d with
@@ -184,7 +191,8 @@ theorem classFieldsIdx_spec : ∀ (ds : List Decl) (i k : Nat), classFieldsIdx d
 /-- **Which block.**  The class fields are the FIRST `var` declaration, and only if nothing but
 `import`/`const`/`type` declarations precede it. -/
 theorem C11_first_var_block (ds : List Decl) (specs : List Spec) (h : classFields ds = some specs) :
-    ∃ j, ds[j]? = some (.genVar specs) ∧ ∀ m, m < j → ∃ d, ds[m]? = some d ∧ d.isLeadingGen = true := by
+    ∃ j : Nat, ds[j]? = some (Decl.genVar specs) ∧
+      ∀ m : Nat, m < j → ∃ d : Decl, ds[m]? = some d ∧ d.isLeadingGen = true := by
   unfold classFields at h
   split at h
   · cases h
@@ -196,36 +204,31 @@ theorem C11_first_var_block (ds : List Decl) (specs : List Spec) (h : classField
     · rename_i s hs; cases h; exact ⟨i, hs, hpre⟩
     · cases h
 
+def globalsAt (skip : Option Nat) (p : Decl × Nat) : List Str :=
+  match p.1 with
+  | Decl.genVar specs => if skip = some p.2 then [] else specs.flatMap Spec.names
+  | _ => []
+
 theorem walkDecls_globals (cls : Str) (skip : Option Nat) : ∀ (ds : List Decl) (i : Nat)
     (ms : List Method) (gs : List Str),
-    (walkDecls cls skip ds i ms gs).2 = gs.reverse ++
-      (ds.zipIdx i).flatMap fun (d, k) =>
-        match d with
-        | .genVar specs => if skip = some k then [] else specs.flatMap Spec.names
-        | _ => []
+    (walkDecls cls skip ds i ms gs).2 = gs.reverse ++ (ds.zipIdx i).flatMap (globalsAt skip)
   | [], _, ms, gs => by simp [walkDecls]
   | d :: r, i, ms, gs => by
     cases d with
-    | func f => simp [walkDecls, walkDecls_globals cls skip r, List.zipIdx_cons]
+    | func f => simp [walkDecls, walkDecls_globals cls skip r, List.zipIdx_cons, globalsAt]
     | genVar specs =>
-      simp only [walkDecls, List.zipIdx_cons, List.flatMap_cons]
+      simp only [walkDecls, List.zipIdx_cons, List.flatMap_cons, globalsAt]
       split <;> simp [walkDecls_globals cls skip r]
-    | genImport => simp [walkDecls, walkDecls_globals cls skip r, List.zipIdx_cons]
-    | genConst => simp [walkDecls, walkDecls_globals cls skip r, List.zipIdx_cons]
-    | genType => simp [walkDecls, walkDecls_globals cls skip r, List.zipIdx_cons]
+    | genImport => simp [walkDecls, walkDecls_globals cls skip r, List.zipIdx_cons, globalsAt]
+    | genConst => simp [walkDecls, walkDecls_globals cls skip r, List.zipIdx_cons, globalsAt]
+    | genType => simp [walkDecls, walkDecls_globals cls skip r, List.zipIdx_cons, globalsAt]
 
-/-- Every other `var` block of the file declares package-level variables, not fields. -/
+/-- Every other `var` block of the file declares package-level variables, not fields:
+the globals are the names of all var blocks except the class var block, in order. -/
 theorem C11_later_var_blocks_are_globals (cls : Str) (ds : List Decl) (t : GenType)
     (h : genType cls ds = .ok t) :
-    t.globals = (ds.zipIdx 0).flatMap fun (d, k) =>
-      match d with
-      | .genVar specs => if classFieldsIdx ds 0 = some k then [] else specs.flatMap Spec.names
-      | _ => [] := by
-  unfold genType at h
-  split at h
-  · cases h
-  · cases h
-    simp [walkDecls_globals]
+    t.globals = (ds.zipIdx 0).flatMap (globalsAt (classFieldsIdx ds 0)) := by
+  rw [(genType_ok cls ds t h).2, walkDecls_globals]; simp
 
 def cs (x : String) : Str := x.toList
 
